@@ -1,5 +1,6 @@
 import RF.Lemmas.Lists
 import RF.Model.ListsItemize
+import RF.Model.ListsStructLit
 /-!
 # The list machinery (`src/lists.rs`): what `write_list` emits and how `definitive_tactic` decides
 
@@ -627,5 +628,103 @@ theorem extractPostComment_strips_comment_char_counterexample :
 example : itemize [','] [')'] false [] [⟨some "a".toList, ", // one\n    ".toList⟩, ⟨some "b".toList, " /* two */\n".toList⟩]
     = some [⟨none, .none, some "a".toList, some "// one".toList, false⟩,
             ⟨none, .none, some "b".toList, some "/* two */".toList, false⟩] := by decide
+
+/-! ## The struct-literal helpers (`struct_lit_shape`, `struct_lit_tactic`, `shape_for_tactic`,
+`struct_lit_formatting`) -/
+
+/-- Without a horizontal shape the tactic is Vertical. -/
+theorem structLitTactic_none (c : StructLitConfig) (items : List ListItem) :
+    structLitTactic none c items = .vertical := rfl
+
+/-- With a horizontal shape the tactic is `definitive_tactic` on its width: asked for
+HorizontalVertical when the style is Visual and there is one field, or `struct_lit_single_line` is on;
+for Vertical otherwise. -/
+theorem structLitTactic_spec (h : Shape) (c : StructLitConfig) (items : List ListItem) :
+    structLitTactic (some h) c items =
+      definitiveTactic items
+        (if (c.indentStyle = .visual ∧ items.length = 1) ∨ c.structLitSingleLine = true then
+          .horizontalVertical else .vertical) .comma h.width := by
+  unfold structLitTactic
+  by_cases h1 : c.indentStyle = .visual ∧ items.length = 1
+  · simp [h1]
+  · by_cases h2 : c.structLitSingleLine = true <;> simp [h1, h2]
+
+/-- **`shape_for_tactic` never unwraps `None` after `struct_lit_tactic`.**  The tactic computed from
+`h_shape` is Horizontal only if `h_shape` is there, so `h_shape.unwrap()` in `shape_for_tactic` cannot
+panic on the pair the two callers (expr.rs, patterns.rs) pass. -/
+theorem shapeForTactic_after_structLitTactic (hShape : Option Shape) (vShape : Shape)
+    (c : StructLitConfig) (items : List ListItem) :
+    shapeForTactic (structLitTactic hShape c items) hShape vShape ≠ none := by
+  cases hShape with
+  | none => simp [structLitTactic, shapeForTactic]
+  | some h =>
+    unfold shapeForTactic
+    split <;> simp
+
+/-- `shape_for_tactic` does panic on a Horizontal tactic without a horizontal shape. -/
+example : shapeForTactic .horizontal none (Shape.legacy 10 Indent.empty) = none := rfl
+
+/-- The horizontal shape of a struct literal: what is left of the width after prefix and suffix, capped
+by `struct_lit_width`, at the indentation of the given shape; absent iff prefix and suffix do not fit. -/
+theorem structLitShape_horizontal (shape : Shape) (c : StructLitConfig) (pw sw : Nat)
+    (h : Option Shape) (v : Shape) (hok : structLitShape shape c pw sw = .ok (h, v)) :
+    (pw + sw ≤ shape.width →
+      h = some (Shape.legacy (min (shape.width - (pw + sw)) c.structLitWidth) shape.indent)) ∧
+    (shape.width < pw + sw → h = none) := by
+  unfold structLitShape at hok
+  simp only at hok
+  split at hok
+  · simp at hok
+  · simp only [Except.ok.injEq, Prod.mk.injEq] at hok
+    obtain ⟨rfl, _⟩ := hok
+    constructor
+    · intro hle
+      have : ¬ shape.width < pw + sw := by omega
+      simp [checkedSub, this]
+    · intro hlt
+      simp [checkedSub, hlt]
+
+example : structLitShape (Shape.legacy 40 (Indent.new 4 0)) ⟨.block, 4, 100, 18, true, .vertical⟩ 6 2 =
+    .ok (some (Shape.legacy 18 (Indent.new 4 0)), ⟨92, Indent.new 8 0, 0⟩) := by decide
+
+/-- `struct_lit_formatting`: comma behind, newlines preserved, comments aligned; the list "ends with a
+newline" exactly for a Vertical list outside the Visual style; a forced `Never` overrides
+`trailing_comma`. -/
+theorem structLitFormatting_spec (shape : Shape) (tactic : DefinitiveListTactic) (c : StructLitConfig)
+    (force : Bool) (config : Config) (nc : Bool) :
+    let f := structLitFormatting shape tactic c force config nc
+    f.tactic = tactic ∧ f.separator = [','] ∧ f.separatorPlace = .back ∧ f.shape = shape ∧
+    f.preserveNewline = true ∧ f.nested = false ∧ f.alignComments = true ∧
+    (f.endsWithNewline = true ↔ c.indentStyle = .block ∧ tactic = .vertical) ∧
+    f.trailingSeparator = (if force then .never else c.trailingComma) := by
+  refine ⟨rfl, rfl, rfl, rfl, rfl, rfl, rfl, ?_, rfl⟩
+  simp only [structLitFormatting]
+  cases c.indentStyle <;> simp
+
+/-- **A struct literal laid out on one line fits its horizontal shape.**  When `struct_lit_tactic` answers
+Horizontal for comment-free fields, the fields written with `struct_lit_formatting` (no forced trailing
+comma `Always`) are exactly as wide as measured and fit the width of the horizontal shape, which is at
+most `struct_lit_width`. -/
+theorem structLit_horizontal_fits (h : Shape) (c : StructLitConfig) (items : List ListItem) (rc : Rc)
+    (force : Bool) (config : Config) (nc : Bool)
+    (hitems : ∀ it ∈ items, Plain it) (htc : force = true ∨ c.trailingComma ≠ .always)
+    (ht : structLitTactic (some h) c items = .horizontal) :
+    ∃ out, writeList (structLitFormatting h .horizontal c force config nc) rc items = some out ∧
+      strWidth out ≤ h.width := by
+  rw [structLitTactic_spec] at ht
+  have htr : (structLitFormatting h .horizontal c force config nc).trailingSeparator ≠ .always := by
+    simp only [structLitFormatting]
+    rcases htc with rfl | htc
+    · simp
+    · cases force <;> simp [htc]
+  have hne : (if (c.indentStyle = .visual ∧ items.length = 1) ∨ c.structLitSingleLine = true then
+      ListTactic.horizontalVertical else ListTactic.vertical) ≠ .horizontal := by
+    split <;> simp
+  obtain ⟨out, hw, _, hle⟩ := writeList_horizontal_fits
+    (structLitFormatting h .horizontal c force config nc) rc items _ h.width rfl rfl htr hitems hne ht
+  exact ⟨out, hw, hle⟩
+
+example : structLitTactic (some (Shape.legacy 18 (Indent.new 4 0))) ⟨.block, 4, 100, 18, true, .vertical⟩
+    [ListItem.fromStr "a: 1".toList, ListItem.fromStr "b: 2".toList] = .horizontal := by decide
 
 end RF.Props.Lists
